@@ -164,7 +164,8 @@ gensalt_yescrypt_rn (unsigned long count,
       params.N = 1ULL << (count + 7); // 3 -> 1024, 4 -> 2048, ... 11 -> 262144
     }
 
-  if (!yescrypt_encode_params_r (&params, rbytes, nrbytes, outbuf, o_size))
+  if (!yescrypt_encode_params_r (&params, rbytes, nrbytes, outbuf,
+                                 sizeof outbuf))
     {
       errno = ERANGE;
       return;
